@@ -425,6 +425,11 @@ impl Sim {
             server.world().get_entity(*se).is_ok_and(|w| w.contains::<Replicated>()) && !unmarked_once.contains(se)
         });
         for (se, pre, killed) in &c.pre {
+            // judged once the update message that carries the mapping has been applied (before that the
+            // client may hold a placeholder for a referenced entity)
+            if c.map_tick.get(se).is_none_or(|mt| u < *mt) {
+                continue;
+            }
             if let Some(got) = to_client.get(se) {
                 self.obs.inc("prespawn_checks");
                 if !*killed && got != pre {
@@ -1119,6 +1124,17 @@ impl Sim {
                             continue;
                         }
                     }
+                    if (k == K_LINK || k == K_ATT) && got == Some(Val::U(u32::MAX)) {
+                        if let Some(Val::E(target)) = &snap[k] {
+                            if self.repointed.contains(&(ci, *target)) {
+                                known.push(format!(
+                                    "reference-superseded-by-prespawn-mapping: client{ci} {s} {} points to an unmapped client entity, the server has {target} (pre-mapped after it had been referenced)",
+                                    KIND_NAMES[k]
+                                ));
+                                continue;
+                            }
+                        }
+                    }
                     let mut props = vec!["C01"];
                     if explicit(s) {
                         props.push("C08");
@@ -1143,7 +1159,11 @@ impl Sim {
                 self.viol(&p, m);
             }
             for k in known {
-                self.obs.inc("known_f4_hits");
+                if k.starts_with("periodic") {
+                    self.obs.inc("known_f4_hits");
+                } else {
+                    self.obs.inc("known_f20_hits");
+                }
                 self.known.push(k);
             }
         }
